@@ -134,7 +134,7 @@ func c28RefKinds(refs []string) string {
 
 func c28Check(c *mc.Check, w *c28wWorld, o *c28wOut) bool {
 	if what, extra := c28Invariants(w, o); what != "" {
-		c.Violation(c28OpSig(o, what), w.detail(o, extra))
+		c28wReport(c, c28OpSig(o, what), func() map[string]any { return w.detail(o, extra) })
 		return true
 	}
 	switch o.Ev.Op {
@@ -157,74 +157,16 @@ func c28Check(c *mc.Check, w *c28wWorld, o *c28wOut) bool {
 			if !o.RetBool {
 				what = "reports that a tunnel to the peer remains although no other tunnel holds any of its addresses"
 			}
-			c.Violation(c28OpSig(o, what), w.detail(o, map[string]any{"returned": o.RetBool, "expected": !other}))
+			c28wReport(c, c28OpSig(o, what), func() map[string]any { return w.detail(o, map[string]any{"returned": o.RetBool, "expected": !other}) })
 			return true
 		}
 	case 'R', 'C':
 		if o.AddOK && !o.Post.live(o.Added.hi) {
-			c.Violation(c28OpSig(o, "a successfully added tunnel is not live afterwards"), w.detail(o, nil))
+			c28wReport(c, c28OpSig(o, "a successfully added tunnel is not live afterwards"), func() map[string]any { return w.detail(o, nil) })
 			return true
 		}
 	}
 	return false
-}
-
-func c28Scenarios(c *mc.Check) []*c28wCfg {
-	th := c.Thorough()
-	collide := &c28wCfg{
-		Name: "collide(index space 1..3)", Space: 4, Cands: []int{0, 2, 3},
-		MaxHI: mc.Pick(c, 3, 4), MaxRelays: mc.Pick(c, 2, 3),
-		Sets:   []c28wSet{c28wSetA, c28wSetAB, c28wSetBC},
-		Starts: []netip.Addr{c28wAddrA, c28wAddrB}, Targets: []netip.Addr{c28wPeerT1},
-		Variants: true, StartDup: th, RecvErr: th, Depth: mc.Pick(c, 5, 7),
-	}
-	// relay-heavy: a tunnel with a relay has been removed and its indexes are free again
-	relaySeed := &c28wCfg{
-		Name: "collide(after a removed tunnel that owned a relay)", Space: 4, Cands: []int{0, 2, 3},
-		MaxHI: mc.Pick(c, 3, 4), MaxRelays: 3,
-		Sets:   []c28wSet{c28wSetA, c28wSetAB},
-		Starts: []netip.Addr{c28wAddrA}, Targets: []netip.Addr{c28wPeerT1},
-		Seed:  []c28wEv{{Op: 'R', H: -1, Set: 0, V: 0}, {Op: 'Y', H: 0, Set: 0, V: 0}, {Op: 'D', H: 0}},
-		Depth: mc.Pick(c, 4, 6),
-	}
-	// per-address cap: four tunnels on a (two of them also on b) exist already; 16-value index space, no collisions
-	capSets := []c28wSet{c28wSetA, c28wSetAB, c28wSetBC}
-	if th {
-		capSets = append(capSets, c28wSetBA)
-	}
-	capped := &c28wCfg{
-		Name: "cap(index space 1..15)", Space: 16, FreeIdx: true,
-		MaxHI: mc.Pick(c, 7, 8), MaxRelays: mc.Pick(c, 2, 3),
-		Sets: capSets, Starts: []netip.Addr{c28wAddrB}, Targets: []netip.Addr{c28wPeerT1},
-		Seed: []c28wEv{{Op: 'R', H: -1, Set: 1}, {Op: 'R', H: -1, Set: 0}, {Op: 'R', H: -1, Set: 1}, {Op: 'R', H: -1, Set: 0}, {Op: 'Y', H: 0, Set: 0}},
-		Depth: mc.Pick(c, 4, 5),
-	}
-	// cap reached through the address b of two-address tunnels: evictions hit tunnels that are primary elsewhere
-	cappedB := &c28wCfg{
-		Name: "cap(lists of a and b both long)", Space: 16, FreeIdx: true,
-		MaxHI: mc.Pick(c, 7, 8), MaxRelays: 1,
-		Sets: []c28wSet{c28wSetAB, c28wSetBC, c28wSetA}, Starts: nil, Targets: []netip.Addr{c28wPeerT1},
-		Seed: []c28wEv{{Op: 'R', H: -1, Set: 0}, {Op: 'R', H: -1, Set: 1}, {Op: 'R', H: -1, Set: 0}, {Op: 'R', H: -1, Set: 1}, {Op: 'R', H: -1, Set: 0}},
-		Depth: mc.Pick(c, 3, 5),
-	}
-	return []*c28wCfg{collide, relaySeed, capped, cappedB}
-}
-
-func c28Describe(cfgs []*c28wCfg) []map[string]any {
-	var out []map[string]any
-	for _, g := range cfgs {
-		w := &c28wWorld{cfg: g}
-		var seed, sets []string
-		for _, e := range g.Seed {
-			seed = append(seed, w.label(e))
-		}
-		for _, s := range g.Sets {
-			sets = append(sets, s.Name)
-		}
-		out = append(out, map[string]any{"scenario": g.Name, "index_values": g.Space - 1, "max_hostinfos": g.MaxHI, "max_relays": g.MaxRelays,
-			"peer_address_sets": sets, "depth": g.Depth, "seed": seed})
-	}
-	return out
 }
 
 func TestVerifC28(t *testing.T) {
@@ -234,8 +176,8 @@ func TestVerifC28(t *testing.T) {
 	c.Assume("'live' is read as: registered in HostMap.Indexes under its own local index; eviction by the per-address cap counts as a removal (the statement does not say which tunnel is evicted, so only its complete erasure is checked)")
 	c.Assume("index generator scripted through the vrand shim (first value = explorer choice, then counting upwards); peers' remote indexes fixed per address set (7/8/7/8) so that shadowing occurs")
 	stats := &c28wStats{}
-	cfgs := c28Scenarios(c)
-	c.Set("scenarios", c28Describe(cfgs))
+	cfgs := c28wScenarios(c)
+	c.Set("scenarios", c28wDescribe(cfgs))
 	per := map[string]any{}
 	for _, g := range cfgs {
 		if c.OutOfTime() {
@@ -251,9 +193,9 @@ func TestVerifC28(t *testing.T) {
 	c.Set("distinct_outcomes", len(n))
 
 	need := func(k string) {
-		c.Require(n[k] > 0, "outcome never occurred: %q (have %v)", k, c28Keys(n))
+		c.Require(n[k] > 0, "outcome never occurred: %q (have %v)", k, c28wKeys(n))
 	}
-	if c.Violations() == 0 || true {
+	if c.Violations() == 0 { // with a violation on record the verdict is the violation; pruned (violating) states may hide outcomes
 		need("DeleteHostInfo: live tunnel, final=true")
 		need("DeleteHostInfo: live tunnel, final=false")
 		need("DeleteHostInfo: already removed tunnel, final=true")
@@ -282,13 +224,4 @@ func TestVerifC28(t *testing.T) {
 		c.Require(evict1 > 0, "the per-address cap was never exceeded")
 		c.Require(evict2 > 0, "no add exceeded the cap on two addresses at once")
 	}
-}
-
-func c28Keys(m map[string]int64) []string {
-	var ks []string
-	for k := range m {
-		ks = append(ks, k)
-	}
-	sort.Strings(ks)
-	return ks
 }
